@@ -24,3 +24,4 @@ def run(chk):
     backtest_rules.run_loop(chk, "C03")
     check_equiv(chk, "C03.R4", "bt/algos.py", "CapitalFlow", "__call__", CAPITAL_FLOW_REF, "capital-flow", "CapitalFlow adjusts the target by its amount as a flow that marks the tree stale")
     core_rules.accessor_rules(chk, "C03")
+    core_rules.set_commissions_rules(chk, "C03")  # fees move the index only if the schedule reaches every strategy of the tree
